@@ -66,6 +66,10 @@ func (g *gen) tcpItem(kind string, fam int) *item {
 		it.R.Note = "connection closed inside the message"
 		return it
 	}
+	if (kind == "valid" || kind == "cname") && g.r.Chance(1, 6) {
+		g.big = true
+		defer func() { g.big = false }()
+	}
 	return g.item(kind, fam)
 }
 
